@@ -172,8 +172,8 @@ def build(cls=64, le=True, machine=62, etype=1, osabi=0, abiversion=0, entry=0, 
                 g.memsz = g.filesz
     shdrs = []
     for s in secs:
-        link = byname[s.link] if isinstance(s.link, str) else s.link
-        info = byname[s.info] if isinstance(s.info, str) else s.info
+        link = byname[s.link] if isinstance(s.link, str) else s.link.index if isinstance(s.link, Sec) else s.link
+        info = byname[s.info] if isinstance(s.info, str) else s.info.index if isinstance(s.info, Sec) else s.info
         size = len(s.data) if s.size is None else s.size
         shdrs.append(dict(sh_name=s.name_off, sh_type=s.type, sh_flags=s.flags, sh_addr=s.addr,
                           sh_offset=s.offset, sh_size=size, sh_link=link, sh_info=info,
